@@ -32,7 +32,7 @@ type vfC21Closer struct {
 }
 
 type vfC21Case struct {
-	Stage   int           `json:"stage"` // 0 fresh .. 5 data flowing, 6 closing while the own DTLS handshake is parked
+	Stage   int           `json:"stage"` // 0 fresh .. 5 data flowing, 6 closing while the own DTLS handshake is parked, 7 closing while the OnMessage handler is busy and a large message waits unread
 	HoldOps bool          `json:"hold_ops"`
 	Closers []vfC21Closer `json:"closers"`
 	// Sequential: closers are started one after another (each after the system settled) instead of
@@ -97,7 +97,13 @@ func vfC21Run(v *vfT, c vfC21Case) {
 		v.Skip("NewPeerConnection")
 	}
 	// without a handler pion closes every incoming channel (defaultOnDataChannelHandler)
-	pcB.OnDataChannel(func(*DataChannel) {})
+	remoteDC := make(chan *DataChannel, 4)
+	pcB.OnDataChannel(func(d *DataChannel) {
+		select {
+		case remoteDC <- d:
+		default:
+		}
+	})
 	gates := vfGatesInstall([]string{"ops.run"})
 	defer gates.Uninstall()
 	var emMu sync.Mutex
@@ -175,12 +181,45 @@ func vfC21Run(v *vfT, c vfC21Case) {
 			v.Skip("DTLS handshake was not reached (inconclusive)")
 		}
 	}
-	if c.Stage >= 4 && c.Stage <= 5 && !c.HoldOps {
+	if (c.Stage == 4 || c.Stage == 5 || c.Stage == 7) && !c.HoldOps {
 		if !vfPairWait(10*time.Second, func() bool {
 			return pcA.ConnectionState() == PeerConnectionStateConnected && dc.ReadyState() == DataChannelStateOpen
 		}) {
 			v.Skip("pair did not connect (inconclusive)")
 		}
+	}
+	handlerGate := make(chan struct{})
+	var handlerOnce sync.Once
+	releaseHandler := func() { handlerOnce.Do(func() { close(handlerGate) }) }
+	defer releaseHandler()
+	if c.Stage == 7 {
+		// A's OnMessage handler parks on the first message; a >64 KiB message then waits unread
+		entered := make(chan struct{}, 1)
+		dc.OnMessage(func(DataChannelMessage) {
+			select {
+			case entered <- struct{}{}:
+			default:
+			}
+			<-handlerGate
+		})
+		var rdc *DataChannel
+		select {
+		case rdc = <-remoteDC:
+		case <-time.After(5 * time.Second):
+			v.Skip("remote channel not announced (inconclusive)")
+		}
+		if !vfPairWait(5*time.Second, func() bool { return rdc.ReadyState() == DataChannelStateOpen }) {
+			v.Skip("remote channel did not open (inconclusive)")
+		}
+		_ = rdc.Send([]byte("first"))
+		select {
+		case <-entered:
+		case <-time.After(5 * time.Second):
+			v.Skip("message handler was not reached (inconclusive)")
+		}
+		_ = rdc.Send(make([]byte, 70000))
+		time.Sleep(5 * time.Millisecond)
+		v.Label("handler-busy-large-message-pending")
 	}
 	if c.Stage == 5 && !c.HoldOps {
 		sendWG.Add(2)
@@ -265,6 +304,13 @@ func vfC21Run(v *vfT, c vfC21Case) {
 			v.Label("closers-started-while-worker-held")
 		}
 		gates.OpenAll()
+	}
+	if c.Stage == 7 {
+		// GracefulClose waits for the read loop, which sits in the application's handler: let the
+		// closers get going, then let the handler return
+		vfSettle(gates, actors)
+		time.Sleep(2 * time.Millisecond)
+		releaseHandler()
 	}
 	if c.Stage == 6 {
 		// plain Close returns while the handshake is still parked; GracefulClose has to wait for the
@@ -420,12 +466,12 @@ func vfC21Run(v *vfT, c vfC21Case) {
 
 func TestVerif_C21(t *testing.T) {
 	vfProperty(t, "C21", vfOpts{
-		Rule: "1-4 concurrent Close/GracefulClose callers (with drawn Gosched delays) at setup stage 0..6 (fresh, media added, local offer set, answer applied, connected, data flowing, own DTLS handshake parked in the connect-context maker), optionally with the operations worker held at a yield point; then every negotiation-changing API; non-trivial = at least two concurrent closers",
+		Rule: "1-4 concurrent Close/GracefulClose callers (with drawn Gosched delays) at setup stage 0..7 (fresh, media added, local offer set, answer applied, connected, data flowing, own DTLS handshake parked in the connect-context maker, OnMessage handler busy with a >64 KiB message waiting unread), optionally with the operations worker held at a yield point; then every negotiation-changing API; non-trivial = at least two concurrent closers",
 		Assumptions: []string{"goroutine census: goroutines with a github.com/pion frame that did not exist before the case and are not harness goroutines, polled for 2s after both peers' GracefulClose returned",
 			"handler delivery order is not asserted (one goroutine per event); emission order comes from the pc.connstate monitor",
 			"a pair that cannot reach the requested stage within its watchdog is discarded as inconclusive"},
 	}, func(v *vfT) vfC21Case {
-		c := vfC21Case{Stage: rapid.IntRange(0, 6).Draw(v.R, "stage")}
+		c := vfC21Case{Stage: rapid.IntRange(0, 7).Draw(v.R, "stage")}
 		c.HoldOps = c.Stage >= 1 && c.Stage <= 3 && rapid.Bool().Draw(v.R, "hold")
 		c.Sequential = rapid.Bool().Draw(v.R, "sequential")
 		n := rapid.IntRange(1, 4).Draw(v.R, "closers")
